@@ -19,7 +19,8 @@ RULE = ('real files in a scratch directory: random integer tables (1..200 rows, 
         'all compositions of <= 7 rows. Non-trivial: >= 2 columns with non-monotone usecols, or limits '
         'with >= 2 pieces, or a multi-line header.'
         " Added classes: labels at the ends of the requested integer type's range, row limit 0."
-        ' Later: headers containing braces / percent signs, reads through the several-comment-characters path, usecols given as an int32 array (left untouched, reusable), one directory and the same file names for every case of a worker (nothing may be remembered per path).')
+        ' Later: headers containing braces / percent signs, reads through the several-comment-characters path, usecols given as an int32 array (left untouched, reusable), one directory and the same file names for every case of a worker (nothing may be remembered per path).'
+        ' Fifth/sixth batch: inconsistent limits that are cumulative end indices.')
 TRUSTED = ['pandas read_csv / numpy savetxt are modelled (Model/TextIO.v), not verified', 'header text restricted to latin-1']
 ASSUMPTIONS = ['integer tables; values within int64']
 BATCH = 100
